@@ -109,6 +109,12 @@ def renamings(arg):
     out['swap-first-two'] = sw
     hi = {k: {x: mk(k, x, x.index, 10 * (len(xs) - j)) for j, x in enumerate(xs)} for k, xs in order.items()}
     out['descending-subscripts'] = hi
+    # one sort at a time: symbols of different sorts that share coordinates must not interact
+    for k in ('a', 'c', 'v', 'p'):
+        if order[k]:
+            m1 = {kk: {} for kk in order}
+            m1[k] = {x: mk(k, x, x.index, x.subscript + 2) for x in order[k]}
+            out[f'shift-only-{k}'] = m1
     return out
 
 
